@@ -96,6 +96,7 @@ def run_one(rng, counters):
             "nskip": rng.choice([0.0, 0.3]),
             "hidden_frac": rng.choice([0.0, 0.0, 0.3]),
             "margin": rng.choice([3, 12, 40]),
+            "edge_frac": rng.choice([0.0, 0.3, 0.6]),
             "qual_mode": rng.choice(["const", "random"]),
         }
         sim = genome.simulate(rng, tmp, p)
@@ -135,7 +136,9 @@ def run_one(rng, counters):
                 hi_full = v.end + v.shift + 1
                 full = any(b[0] <= lo_full and b[1] >= hi_full for _, b in allblocks)
                 overlap = [b for _, b in allblocks if b[0] < v.end + v.shift and b[1] > v.pos]
-                touching = [b for _, b in allblocks if b[0] <= v.end + v.shift and b[1] >= v.pos]
+                # "does not overlap": every aligned block is disjoint from the VCF footprint [pos, pos+len(REF));
+                # blocks that reach into the footprint or its shift range without covering it fully are "partial"
+                touching = [b for _, b in allblocks if b[0] < v.end + v.shift and b[1] > v.pos]
                 partial = any(not (b[0] <= lo_full and b[1] >= hi_full) for b in touching)
                 r_ = rec.get(npos)
                 cls = "%s/%s" % (cigar_class(parts[0]["cigar"]), v.kind)
